@@ -120,6 +120,7 @@ def decoder_rules(ctx, R, skip_d3=False):
     ctx.rule("D2", "quoted-name pattern accepts RFC 5804 quoted strings, name group free of unescaped quotes, result unescaped")
     tv = tainted_vars(R, lst)
     name_calls = []
+    proto_attrs = set(proto)
     for c in walk_no_nested(lst.node):
         if isinstance(c, ast.Call) and isinstance(c.func, ast.Attribute) and c.func.attr in ("match", "fullmatch") \
                 and norm(c.func.value) == "re" and len(c.args) >= 2:
@@ -129,6 +130,12 @@ def decoder_rules(ctx, R, skip_d3=False):
                 for a_ in c.args[2:]:
                     fl |= regex_flags(a_)
                 name_calls.append((c, pat, fl))
+        elif isinstance(c, ast.Call) and isinstance(c.func, ast.Attribute) and c.func.attr in ("match", "fullmatch") and c.args:
+            # a pattern compiled elsewhere (instance attribute, or compiled where it is used) that is not one of the protocol recognisers
+            pr = R.pattern_of(c.func.value, lst)
+            if pr and pr[0] not in proto_attrs and isinstance(pr[1], bytes) and pr[1].startswith(b'"') \
+                    and any(isinstance(n, ast.Name) and n.id in tv for n in ast.walk(c.args[0])):
+                name_calls.append((c, pr[1], pr[2]))
     if len(name_calls) != 1:
         raise AnalysisError("D2", "listscripts: quoted-name pattern not identified (%d candidates)" % len(name_calls))
     ncall, npat, nflags = name_calls[0]
@@ -166,8 +173,12 @@ def decoder_rules(ctx, R, skip_d3=False):
             uses += 1
             p = c._parent
             while p is not None and not isinstance(p, ast.stmt):
-                if isinstance(p, ast.Call) and call_name(p) == "sub" and len(p.args) >= 3:
-                    a0, a1 = const_value(ctx.program, lst, p.args[0]), const_value(ctx.program, lst, p.args[1])
+                if isinstance(p, ast.Call) and call_name(p) == "sub" and len(p.args) >= 2:
+                    if len(p.args) >= 3:
+                        a0, a1 = const_value(ctx.program, lst, p.args[0]), const_value(ctx.program, lst, p.args[1])
+                    else:  # compiled pattern: P.sub(replacement, subject)
+                        pr_ = R.pattern_of(p.func.value, lst) if isinstance(p.func, ast.Attribute) else None
+                        a0, a1 = (pr_[1] if pr_ else None), const_value(ctx.program, lst, p.args[0])
                     if a0 in (rb"\\(.)", rb"\\([\s\S])", rb'\\(["\\])') and a1 in (rb"\1", rb"\g<1>"):
                         unesc = True
                 if isinstance(p, ast.Call) and call_name(p) == "replace" and len(p.args) == 2:
